@@ -22,4 +22,10 @@ PROPS = {
         "assumptions": COMMON_ASSUME + ["containment is lexical: symlinks already present inside the output directory are excluded by the property's own text",
                     "tar link entries are not materialised by archive.Extract (checked dynamically: no link appears)"],
     },
+    "C01": {
+        "props": "Props/C01.v", "corr": ["Corr/C01.v"],
+        "trusted": ["model of LimitRead.Read and BReader.Read/Seek (Model/C01_BlobRead.v); io.TeeReader and digest.Digester by their contracts (every byte returned is hashed)",
+                    "the resume layer (reghttp.Resp.Read/next) is NOT modelled: soundness is proved for an arbitrary underlying reader, so it does not depend on it; it is exercised end-to-end by the registry oracle"],
+        "assumptions": COMMON_ASSUME + ["the theorem takes the hash function as an arbitrary parameter (no collision assumption is needed for soundness)"],
+    },
 }
